@@ -41,7 +41,6 @@ def percentDecode : List Nat → List Nat
     if b = 37 && isHex h && isHex l then (hexVal h * 16 + hexVal l) :: percentDecode rest
     else b :: percentDecode (h :: l :: rest)
   | b :: rest => b :: percentDecode rest
-termination_by l => l.length
 
 /-- Upper-case hex digit of a nibble (percent_encoding's static table is upper case). -/
 def hexUpper (n : Nat) : Nat := if n < 10 then 48 + n else 55 + n
@@ -95,18 +94,21 @@ def utf8Step : List Nat → Option (Nat × Nat)
       | _ => none
     else none
 
-/-- `str::from_utf8(bs).map(|s| s.chars().collect())`. -/
-def utf8Decode : List Nat → Option (List Nat)
-  | [] => some []
-  | b0 :: r =>
+/-- `utf8Decode` with explicit fuel (structural, so the kernel can evaluate it). -/
+def utf8DecodeAux : Nat → List Nat → Option (List Nat)
+  | _, [] => some []
+  | 0, _ :: _ => none
+  | fuel + 1, b0 :: r =>
     match utf8Step (b0 :: r) with
     | none => none
     | some (cp, w) =>
-      match utf8Decode (r.drop (w - 1)) with
+      match utf8DecodeAux fuel (r.drop (w - 1)) with
       | none => none
       | some cps => some (cp :: cps)
-termination_by l => l.length
-decreasing_by simp [List.length_drop]; omega
+
+/-- `str::from_utf8(bs).map(|s| s.chars().collect())`: every step consumes at least one byte, so
+    `bs.length` steps always suffice. -/
+def utf8Decode (bs : List Nat) : Option (List Nat) := utf8DecodeAux bs.length bs
 
 def utf8Valid (bs : List Nat) : Bool := (utf8Decode bs).isSome
 
@@ -130,15 +132,17 @@ def invalidLen : List Nat → Nat
       | [] => 1
     else 1
 
-/-- `String::from_utf8_lossy` as bytes (U+FFFD = EF BF BD). -/
-def utf8Lossy : List Nat → List Nat
-  | [] => []
-  | b0 :: r =>
+/-- `utf8Lossy` with explicit fuel. -/
+def utf8LossyAux : Nat → List Nat → List Nat
+  | _, [] => []
+  | 0, _ :: _ => []
+  | fuel + 1, b0 :: r =>
     match utf8Step (b0 :: r) with
-    | some (_, w) => (b0 :: r).take w ++ utf8Lossy (r.drop (w - 1))
-    | none => [239, 191, 189] ++ utf8Lossy (r.drop (invalidLen (b0 :: r) - 1))
-termination_by l => l.length
-decreasing_by all_goals (simp [List.length_drop]; omega)
+    | some (_, w) => (b0 :: r).take w ++ utf8LossyAux fuel (r.drop (w - 1))
+    | none => [239, 191, 189] ++ utf8LossyAux fuel (r.drop (invalidLen (b0 :: r) - 1))
+
+/-- `String::from_utf8_lossy` as bytes (U+FFFD = EF BF BD). -/
+def utf8Lossy (bs : List Nat) : List Nat := utf8LossyAux bs.length bs
 
 /-- `char::encode_utf8` for a scalar value. -/
 def utf8Encode (c : Nat) : List Nat :=
